@@ -47,8 +47,8 @@ class WeightPatch:
     """Context manager: replaces random.random by the deterministic source and
     tags every created Event with its creation index."""
 
-    def __init__(self, seed, mod):
-        self.seed, self.mod, self.n = seed, mod, 0
+    def __init__(self, seed, mod, mode='patch'):
+        self.seed, self.mod, self.n, self.mode, self.k = seed, mod, 0, mode, 0
 
     def __enter__(self):
         from simprocesd.model import simulation
@@ -66,8 +66,25 @@ class WeightPatch:
             ev._verif_eid = patch.n
             patch.n += 1
 
-        simulation.random.random = fake_random
-        simulation.Event.__init__ = init
+        def init_skipterm(ev, *a, **kw):
+            # the marker event of Environment.run gets a fixed weight and does not advance the weight counter
+            patch._orig_init(ev, *a, **kw)
+            ev._verif_eid = patch.n
+            patch.n += 1
+            if getattr(ev.action, '__name__', '') == '_terminate':
+                ev.random_weight = 0.0
+            else:
+                ev.random_weight = wgen(patch.seed, patch.mod, patch.k) / WDEN
+                patch.k += 1
+
+        if self.mode == 'patch':
+            simulation.random.random = fake_random
+            simulation.Event.__init__ = init
+        elif self.mode == 'skipterm':
+            simulation.Event.__init__ = init_skipterm
+        else:
+            simulation.random.seed(self.seed)
+            simulation.Event.__init__ = init
         return self
 
     def __exit__(self, *exc):
